@@ -109,6 +109,7 @@ pub fn size_sel(boundary: u32) -> impl Strategy<Value = SizeSel> {
         boundary => small_d().prop_map(SizeSel::FreePlus),
         boundary / 2 + 1 => small_d().prop_map(SizeSel::MaxPlus),
         boundary => (0u8..6, small_d()).prop_map(|(n, d)| SizeSel::NeedEvict(n, d)),
+        1 => (20u8..70, small_d()).prop_map(|(n, d)| SizeSel::NeedEvict(n, d)),
     ]
 }
 
@@ -211,8 +212,9 @@ pub fn walk(forget: u32) -> impl Strategy<Value = Op> {
 pub fn op(p: &Profile, universe: u16) -> BoxedStrategy<Op> {
     let b = p.boundary;
     let big = p.big;
-    let many_max: u16 = if big { 3000 } else { 40 };
-    let churn_max: u16 = if big { 1500 } else { 60 };
+    // bulk operations cost constant work per element, so big caches are affordable in every tier
+    let many_max: u16 = if big { 3000 } else { 2600 };
+    let churn_max: u16 = if big { 1500 } else { 400 };
     let kheap = prop_oneof![6 => Just(0u8), 2 => 1u8..4];
     let mut alts: Vec<(u32, BoxedStrategy<Op>)> = vec![
         (p.insert, (key_sel(universe), kheap.clone(), size_sel(b))
@@ -255,12 +257,12 @@ pub fn op(p: &Profile, universe: u16) -> BoxedStrategy<Op> {
         ].boxed()),
         (p.walk, walk(p.forget).boxed()),
         (p.debug, Just(Op::Debug).boxed()),
-        (p.clone, prop_oneof![2 => Just(CloneMode::Check), 2 => Just(CloneMode::Swap), 3 => Just(CloneMode::Fork)]
+        (p.clone, prop_oneof![2 => Just(CloneMode::Check), 2 => Just(CloneMode::Swap), 3 => Just(CloneMode::Fork), 2 => Just(CloneMode::From)]
             .prop_map(Op::Clone).boxed()),
         (p.scalars, Just(Op::Scalars).boxed()),
-        (p.insert_many, (prop_oneof![4 => 1u16..40, 1 => 40u16..=many_max], 0u16..40)
+        (p.insert_many, (prop_oneof![if big { 4 } else { 9 } => 1u16..40, 1 => 40u16..=many_max], 0u16..40)
             .prop_map(|(count, vheap)| Op::InsertMany { count, vheap }).boxed()),
-        (p.churn, (prop_oneof![4 => 1u16..60, 1 => 60u16..=churn_max], 0u8..3)
+        (p.churn, (prop_oneof![if big { 4 } else { 9 } => 1u16..60, 1 => 60u16..=churn_max], 0u8..3)
             .prop_map(|(rounds, which)| Op::Churn { rounds, which }).boxed()),
         (p.side, (0u8..3).prop_map(Op::Side).boxed()),
         (p.inject, (proptest::sample::select(PANIC_KINDS.to_vec()), 1u16..7, any::<bool>())
@@ -278,7 +280,7 @@ pub fn config(p: &Profile) -> impl Strategy<Value = Config> {
         prop_oneof![2 => Just(4u16), 4 => Just(16u16), 4 => Just(64u16), 2 => Just(256u16), 2 => Just(1024u16), 1 => Just(4096u16)].boxed()
     }
     else {
-        prop_oneof![2 => Just(4u16), 5 => Just(16u16), 3 => Just(64u16), 1 => Just(256u16)].boxed()
+        prop_oneof![2 => Just(4u16), 5 => Just(16u16), 3 => Just(64u16), 1 => Just(256u16), 1 => Just(4096u16)].boxed()
     };
     let capacity = prop_oneof![
         5 => Just(None),
@@ -335,8 +337,51 @@ pub fn panic_case() -> BoxedStrategy<PanicCase> {
     s.small = true; s.side = 0; s.inject = 0; s.churn = 1; s.walk = 6; s.capacity = 10;
     config(&p).prop_flat_map(move |config| {
         let u = config.universe;
-        (Just(config), vec(op(&p, u), 0..14), op(&v, u), any::<bool>(), vec(op(&s, u), 0..10))
-    }).prop_map(|(config, prefix, victim, late, suffix)| PanicCase { config, prefix, victim, late, suffix }).boxed()
+        // one in six states is big (hundreds of entries): operations that walk
+        // or rebuild the whole table then have hundreds of crash points
+        let bulk = prop_oneof![30 => Just(None), 6 => (60u16..300).prop_map(Some), 1 => (1030u16..2200).prop_map(Some)];
+        (Just(config), bulk, vec(op(&p, u), 0..14), op(&v, u), any::<bool>(), vec(op(&s, u), 0..10))
+    }).prop_map(|(mut config, bulk, mut prefix, victim, late, suffix)| {
+        if let Some(n) = bulk {
+            config.universe = 4096;
+            config.limit = LimSel::Max;
+            prefix.insert(0, Op::InsertMany { count: n, vheap: 1 });
+        }
+        PanicCase { config, prefix, victim, late, suffix }
+    }).boxed()
+}
+
+/// Random walks that keep a table of fixed size near its capacity: many
+/// replacements, removals and re-insertions over a key universe only a few
+/// times the table size, no capacity operations. Explores the hash table's
+/// control-byte configurations (tombstones, displaced entries, exhausted growth
+/// budget) far more densely than the general profile.
+pub fn dense_case() -> BoxedStrategy<Case> {
+    let tables = prop_oneof![3 => Just((28u32, 64u16)), 3 => Just((56u32, 128u16)), 2 => Just((112u32, 256u16)), 1 => Just((14u32, 32u16))];
+    let hashers = prop_oneof![4 => Just(HKind::Identity), 2 => Just(HKind::Fx), 1 => Just(HKind::Sip), 1 => Just(HKind::LowBits(4))];
+    (tables, hashers, 40usize..260).prop_flat_map(|((cap, universe), hasher, n)| {
+        let raw = (0..universe).prop_map(KeySel::Raw);
+        let op = prop_oneof![
+            30 => (raw.clone(), 0u32..3).prop_map(|(key, v)| Op::Insert { key, kheap: 0, size: SizeSel::Abs(v) }),
+            6 => (0..universe).prop_map(|j| Op::Insert { key: KeySel::Absent(j), kheap: 0, size: SizeSel::Zero }),
+            4 => any::<u16>().prop_map(|i| Op::Insert { key: KeySel::Nth(i), kheap: 0, size: SizeSel::Abs(1) }),
+            14 => (raw.clone(), form()).prop_map(|(key, form)| Op::Remove { key, form }),
+            8 => (any::<u16>(), form()).prop_map(|(i, form)| Op::RemoveEntry { key: KeySel::Nth(i), form }),
+            2 => Just(Op::RemoveLru),
+            2 => Just(Op::RemoveMru),
+            3 => (raw.clone(), form()).prop_map(|(key, form)| Op::Get { key, form }),
+            2 => (raw.clone()).prop_map(|key| Op::TryInsert { key, kheap: 0, size: SizeSel::Zero }),
+            2 => (any::<u16>(), form(), 0u32..4).prop_map(|(i, form, v)| Op::Mutate { key: KeySel::Nth(i), form, size: SizeSel::Abs(v) }),
+            1 => any::<u64>().prop_map(|mask| Op::Retain { mask: mask | 0xff00_ff00_ff00_ff00, by_key: true }),
+            1 => Just(Op::Clone(CloneMode::Check)),
+            1 => (1u16..30).prop_map(|c| Op::InsertMany { count: c, vheap: 0 }),
+        ];
+        (Just(Config { hasher, capacity: Some(cap), limit: LimSel::Max, universe }), vec(op, n..=n))
+    }).prop_map(|(config, mut ops)| {
+        // start from a full table
+        ops.insert(0, Op::InsertMany { count: config.capacity.unwrap_or(0) as u16, vheap: 0 });
+        Case { config, ops }
+    }).boxed()
 }
 
 pub const PANIC_KINDS: [Cb; 8] = [
